@@ -301,7 +301,8 @@ def _member_part(ctx):
     rejected = [(i, t) for i, (t, tv) in enumerate(zip(traces, br.verdicts)) if not tv.accepted]
     # rejected traces in the domain of the OPEN finding: does the as-built model predict exactly this?
     cand = [(i, t) for i, t in rejected if t["hdr"]["fmt"] == "7z"
-            and any(m["kind"] == "corrupt" for m in t["hdr"]["members"])]
+            and any(m["kind"] == "corrupt" for m in t["hdr"]["members"])
+            and (json.loads(dbg[i]["variant"]).get("corrupt") or [0, ""])[1] in ("flip", "trunc")]   # stream damage
     asbuilt = {}
     if cand:
         br2 = validate("ArchiveTrace", TRACE_CFG % "asbuilt", [t for _, t in cand], scratch=ctx.scratch, parallel=8,
